@@ -47,6 +47,25 @@ pub use error::*;
 /// So the limit is `i16::MAX - 257`.
 pub const MAX_LIG_KERN_INSTRUCTIONS: u16 = (i16::MAX as u16) - 257;
 
+/// Maximum value of the number of lig/kern instructions plus the number of distinct kern values
+///     that can appear in a property list file.
+///
+/// The length of a TFM file in words, `lf`, must be at most `i16::MAX`.
+/// It is the sum of the lengths of all of the sub-files.
+/// Each lig/kern instruction and each distinct kern value contributes one word.
+/// This limit reserves space for the largest possible value of everything else:
+///     the 6 words of sub-file sizes,
+///     256 header words (a HEADER index is at most 255),
+///     256 characters,
+///     256 widths, 16 heights, 16 depths and 64 italic corrections,
+///     256 extensible recipes,
+///     254 parameters,
+///     and the 258 lig/kern instructions that may be prepended
+///     (see [`MAX_LIG_KERN_INSTRUCTIONS`]; one more is used for the boundary character).
+/// With this limit the sub-file sizes always add up to at most `i16::MAX`.
+pub const MAX_LIG_KERN_WORDS: usize =
+    (i16::MAX as usize) - (6 + 256 + 256 + 256 + 16 + 16 + 64 + 256 + 254 + 258);
+
 /// Data about one character in a .pl file.
 #[derive(Clone, Default, PartialEq, Eq, Debug)]
 pub struct CharDimensions {
@@ -187,6 +206,8 @@ impl File {
         let mut lig_kern_precedes = false;
 
         let mut next_larger_span = HashMap::<Char, std::ops::Range<usize>>::new();
+        // The distinct kern values in the lig/kern program so far.
+        let mut kern_values = std::collections::HashSet::<FixWord>::new();
 
         for node in ast.0 {
             match node {
@@ -245,22 +266,43 @@ impl File {
                 }
                 ast::Root::LigTable(b) => {
                     for node in b.children {
-                        let mut insert_lig_kern_instruction = |instruction, span: std::ops::Range<usize>| {
-                            if file.lig_kern_program.instructions.len()
-                                < MAX_LIG_KERN_INSTRUCTIONS as usize
-                            {
-                                file.lig_kern_program.instructions.push(instruction);
-                            } else {
-                                // TODO: add a test for this case
-                                // Every warning needs an offset: the warnings are sorted
-                                // by offset after the file has been processed.
-                                errors.push(error::ParseWarning {
-                                    knuth_pltotf_offset: Some(span.end),
-                                    span,
-                                    kind: ParseWarningKind::LigTableIsTooBig,
-                                });
-                            }
-                        };
+                        let mut insert_lig_kern_instruction =
+                            |instruction: ligkern::lang::Instruction,
+                             span: std::ops::Range<usize>| {
+                                let num_instructions = file.lig_kern_program.instructions.len();
+                                // The number of words that the lig/kern instructions and the
+                                // kerns occupy in the TFM file after adding the instruction.
+                                let num_words = num_instructions
+                                    + 1
+                                    + kern_values.len()
+                                    + match instruction.operation {
+                                        ligkern::lang::Operation::Kern(kern)
+                                            if !kern_values.contains(&kern) =>
+                                        {
+                                            1
+                                        }
+                                        _ => 0,
+                                    };
+                                if num_instructions < MAX_LIG_KERN_INSTRUCTIONS as usize
+                                    && num_words <= MAX_LIG_KERN_WORDS
+                                {
+                                    if let ligkern::lang::Operation::Kern(kern) =
+                                        instruction.operation
+                                    {
+                                        kern_values.insert(kern);
+                                    }
+                                    file.lig_kern_program.instructions.push(instruction);
+                                } else {
+                                    // TODO: add a test for this case
+                                    // Every warning needs an offset: the warnings are sorted
+                                    // by offset after the file has been processed.
+                                    errors.push(error::ParseWarning {
+                                        knuth_pltotf_offset: Some(span.end),
+                                        span,
+                                        kind: ParseWarningKind::LigTableIsTooBig,
+                                    });
+                                }
+                            };
                         match node {
                             ast::LigTable::Label(v) => {
                                 let u: u16 = file.lig_kern_program.instructions.len().try_into().expect("lig_kern_instructions.len()<= MAX_LIG_KERN_INSTRUCTIONS which is a u16");
